@@ -50,16 +50,44 @@ def enumerate_decisions(f, atoms, conv_atoms=None, seed=0, tracked=None):
     cfg = f.cfg
     cond_of = {}
     extra = []
+    leaf_cache = {}
+
+    def leaves(n):
+        n = skip(n)
+        if n["k"] == "bin" and n["op"] in ("&&", "||"):
+            return leaves(n["c"][0]) + leaves(n["c"][1])
+        if n["k"] == "un" and n["op"] == "!":
+            return leaves(n["c"][0])
+        return [n]
+
+    def leaf_atom(n):
+        if n["i"] not in leaf_cache:
+            c = classify(f, n, atoms, conv_atoms, seed)
+            if c is None:
+                name = "extra:" + pp(n)
+                if name not in extra:
+                    extra.append(name)
+                c = (name, True)
+            leaf_cache[n["i"]] = c
+        return leaf_cache[n["i"]]
+
+    def truth(n, asg):
+        n = skip(n)
+        if n["k"] == "bin" and n["op"] == "&&":
+            return truth(n["c"][0], asg) and truth(n["c"][1], asg)
+        if n["k"] == "bin" and n["op"] == "||":
+            return truth(n["c"][0], asg) or truth(n["c"][1], asg)
+        if n["k"] == "un" and n["op"] == "!":
+            return not truth(n["c"][0], asg)
+        name, pol = leaf_atom(n)
+        return asg[name] == pol
+
     for b in cfg.blocks.values():
         if b.cond is None or len([s for s in b.succ if s >= 0]) < 2:
             continue
-        c = classify(f, b.cond, atoms, conv_atoms, seed)
-        if c is None:
-            name = "extra:" + pp(b.cond)
-            if name not in extra:
-                extra.append(name)
-            c = (name, True)
-        cond_of[b.id] = c
+        cond_of[b.id] = b.cond
+        for lf in leaves(b.cond):
+            leaf_atom(lf)
     # boolean results returned directly (return a < b;) are decisions too
     ret_of = {}
     for b in cfg.blocks.values():
@@ -71,7 +99,7 @@ def enumerate_decisions(f, atoms, conv_atoms=None, seed=0, tracked=None):
                     if c is not None:
                         ret_of[e.node["i"]] = c
     names = [a.name for a in atoms] + extra
-    used = {c[0] for c in cond_of.values()} | {c[0] for c in ret_of.values()}
+    used = {c[0] for c in leaf_cache.values()} | {c[0] for c in ret_of.values()}
     names = [n for n in names if n in used]
     rows = []
     for bits in itertools.product([False, True], repeat=len(names)):
@@ -99,9 +127,7 @@ def enumerate_decisions(f, atoms, conv_atoms=None, seed=0, tracked=None):
                         out["ret"] = literal_value(v) if v is not None and literal_value(v) is not None else (pp(v) if v is not None else None)
             succ = [s for s in b.succ]
             if b.id in cond_of and len(succ) >= 2:
-                name, pol = cond_of[b.id]
-                truth = asg[name] == pol
-                cur = succ[0] if truth else succ[1]
+                cur = succ[0] if truth(cond_of[b.id], asg) else succ[1]
             else:
                 nxt = [s for s in succ if s >= 0]
                 cur = nxt[0] if nxt else None
